@@ -159,6 +159,9 @@ func GetT() a.T { return a.GetT() }
 
 func GetS() a.S { return a.GetS() }
 
+// TAlias re-exports a's annotated type; importers of this package that do not import a see no annotation of a.
+type TAlias = a.T
+
 func useA(x a.T, p *a.T, s a.S) {
 	x.F = 1 // want IMM01
 	x.M = 1
@@ -205,6 +208,10 @@ func use_` + b + `(y ` + b + `.TB) {
 	_ = n
 	t := ` + b + `.GetT()
 	t.F = 1
+	_ = ` + b + `.TAlias{}
+	_ = new(` + b + `.TAlias)
+	var ta ` + b + `.TAlias
+	ta.F = 2
 	s := ` + b + `.GetS()
 	s.Reset()
 	s.PM()
